@@ -134,6 +134,10 @@ def build(ctx, topo):
         else:
             comps[n] = HPull(n, ins[n], outs[n])
     order = topo.get("order") or list(range(len(specs)))
+    if order == "choice":
+        import itertools
+        perms = list(itertools.permutations(range(len(specs))))
+        order = list(perms[ctx.choice("listing", len(perms))])
     listed = [comps[specs[i]["name"]] for i in order]
     composition = hlib.make_composition(listed, **topo.get("comp_kwargs", {}))
     delays = []
@@ -190,7 +194,40 @@ def link_request(link, t):
             return None
         if isinstance(ada, ITimeDelayAdapter):
             t = ada.with_delay(t)
+        if ada.needs_push:
+            # a push-based adapter serves from a buffer filled at the source's push times: it can
+            # serve t only if the source has pushed at or beyond t, whatever sits further upstream
+            return t
     return t
+
+
+def spec_lag_conditions(w, comp, t):
+    """[(source time component, condition 'source still lacks data needed for a pull at t')] --
+    conditions are symbolic (no forking)."""
+    res = []
+    for l in w["links"]:
+        if w["comps"][l["dst"]] is not comp:
+            continue
+        tr = link_request(l, t)
+        if tr is None:
+            continue
+        src = w["comps"][l["src"]]
+        if isinstance(src, ITimeComponent):
+            res.append((src, src.outputs[l["out"]].time < tr, l))
+        else:
+            res.extend(spec_lag_conditions(w, src, tr))
+    return res
+
+
+def delay_before_push_based(link):
+    """True if a delay adapter sits on the source side of a push-based adapter on this link"""
+    seen_delay = False
+    for ada in link["adapters"]:  # source side first
+        if isinstance(ada, ITimeDelayAdapter) and not isinstance(ada, NoDependencyAdapter):
+            seen_delay = True
+        elif ada.needs_push and seen_delay:
+            return True
+    return False
 
 
 def spec_lagging(w, comp, t):
@@ -267,13 +304,12 @@ class RunMonitor:
         self.expected = {}
         if "C02" in self.props or "C13" in self.props or "C20" in self.props:
             self._expect_requests(comp, t)
-        if "C01" in self.props or "C02" in self.props:
-            lag = spec_lagging(w, comp, t)
-            if lag:
-                # feasible path on which the driver advances comp although a source lags
-                if "C01" in self.props:
-                    ctx.fail("C01:updated-before-input-available",
-                             {"sig": "driver", "comp": comp.name, "lagging": [c.name for c in lag]})
+        if "C01" in self.props:
+            # PC ∧ 'some source still lags' must be unsat at the moment the driver advances comp
+            for src, cond, l in spec_lag_conditions(w, comp, t):
+                sig = "driver:delay-before-push-based" if delay_before_push_based(l) else "driver"
+                ctx.check(symx.neg(cond), "C01:updated-before-input-available",
+                          {"sig": sig, "comp": comp.name, "lagging": src.name})
         if "C02" in self.props:
             if not self._chain_ok(self.top, comp, 0):
                 ctx.fail("C02:update-not-needed", {"sig": "chain", "comp": comp.name,
@@ -386,17 +422,7 @@ def h_run(ctx):
     expect = p.get("expect", "ok")
     # constraints on delays (C04: every cycle carries enough delay)
     if p.get("delay_sum_ge_steps"):
-        tot = None
-        for d in w["delays"]:
-            tot = d if tot is None else tot + d
-        need = None
-        for c in comps.values():
-            if isinstance(c, HComp):
-                m = c.steps[0]
-                for s in c.steps[1:]:
-                    m = s if bool(s > m) else m
-                need = m if need is None else need + m
-        ctx.assume(tot >= need)
+        assume_delays_cover_steps(ctx, w)
 
     composition = w["composition"]
     outcome = "ok"
@@ -475,6 +501,98 @@ def _check_requests(ctx, w, mon, props):
             for (_o, t, used) in c.requests:
                 for u in used:
                     ctx.check(ctx.eq(u, t), "C20:pull-based-own-pull-time")
+
+
+# ----------------------------------------------------------------------------
+# one scheduling step from an arbitrary (symbolic) state
+# ----------------------------------------------------------------------------
+def assume_delays_cover_steps(ctx, w):
+    """C04's precondition: combined delay >= sum of the largest steps of the components"""
+    tot = None
+    for d in w["delays"]:
+        tot = d if tot is None else tot + d
+    need = None
+    for c in w["comps"].values():
+        if isinstance(c, HComp):
+            m = c.steps[0]
+            for s in c.steps[1:]:
+                m = s if bool(s > m) else m
+            need = m if need is None else need + m
+    ctx.assume(tot >= need)
+
+
+class _StopStep(Exception):
+    pass
+
+
+def h_step(ctx):
+    """Connect for real, then overwrite the state the driver reads (component times, newest
+    publication times, delay-adapter memories) with symbolic values and let the real run loop
+    perform ONE scheduling step.  The C01/C02 oracles of RunMonitor are evaluated at the entry of
+    the update the driver decides on.  Covers runs of any length as far as the driver's decision
+    is concerned (the decision is a function of exactly this state)."""
+    p = ctx.params
+    props = set(p["props"])
+    hlib.reset_finam_state()
+    w = build(ctx, p["topo"])
+    comps = w["comps"]
+    composition = w["composition"]
+    if p.get("delay_sum_ge_steps"):
+        assume_delays_cover_steps(ctx, w)
+    composition.connect(w["base"])
+    mon = RunMonitor(ctx, w, props, 10**9)
+    mon.end = None
+    # ---- inject an arbitrary state ----
+    for c in comps.values():
+        if isinstance(c, HComp):
+            c._time = w["base"] + ctx.td("T_" + c.name, lo_us=0)
+            ctx.assume(c._time >= c.start)
+            if len(c.steps) > 1:
+                c.k = ctx.choice("k_" + c.name, len(c.steps))
+            for o in c.outputs.values():
+                o._time = c._time  # harness components publish at every update
+    for l in w["links"]:
+        consumer = comps[l["dst"]]
+        for pos, ada in enumerate(l["adapters"]):
+            if isinstance(ada, fm.adapters.DelayToPull):
+                n = ada.steps
+                mem = []
+                prev = ada.initial_time
+                for j in range(ctx.choice(f"npulls_{l['idx']}_{pos}", n) + 1):
+                    t = ctx.dt(f"pull_{l['idx']}_{pos}_{j}")
+                    ctx.assume(t >= prev)
+                    prev = t
+                    mem.append(t)
+                ada._pulls = mem
+            elif isinstance(ada, fm.adapters.DelayToPush):
+                src = comps[l["src"]]
+                if isinstance(src, ITimeComponent):
+                    ada.push_time = src._time
+
+    def on_update(comp):
+        raise _StopStep()
+
+    for c in comps.values():
+        if isinstance(c, HComp):
+            c.on_update = on_update
+    outcome = "stepped"
+    with hlib.Spy() as spy:
+        spy.wrap(fm.Composition, "_update_recursive", before=mon.before_update_recursive,
+                 after=mon.after_update_recursive)
+        spy.wrap(fm.Component, "update", before=mon.before_comp_update)
+        try:
+            composition.run(end_time=w["base"] + ctx.td("e", lo_us=0))
+            outcome = "no-update"
+        except _StopStep:
+            pass
+        except FinamCircularCouplingError:
+            outcome = "circular"
+    ctx.log("outcome", outcome)
+    ctx.cover("outcome:" + outcome)
+    if outcome == "circular" and p.get("delay_sum_ge_steps"):
+        ctx.fail("C04:delay-resolved-cycle-reported-circular", {"sig": "step"})
+    if outcome == "no-update":
+        ctx.fail("C03:run-loop-without-update", {"sig": "step"})
 
 
 # ----------------------------------------------------------------------------
@@ -575,6 +693,39 @@ def run_family(prop, name, topo, max_updates, props=None, **extra):
                              else ["outcome:circular"]),
         max_wall_s=extra.get("max_wall_s", 1800),
     )
+
+
+PUSH_BASED_KINDS = ("linear", "next", "prev", "step", "avg", "sum")
+
+
+def spec_delay_before_push(topo):
+    for l in topo["links"]:
+        seen = False
+        for k in l.get("ada", []):
+            if k == "dfix" or k.startswith("dpull"):
+                seen = True
+            elif k in PUSH_BASED_KINDS and seen:
+                return True
+    return False
+
+
+def step_family(prop, name, topo, props=None, **extra):
+    topo = dict(topo)
+    if spec_delay_before_push(topo):
+        # known finding (DESIGN.md section 9): with a later-starting producer this ordering already fails in
+        # connect(); equal starts isolate the scheduling part
+        topo["offsets"] = False
+    if len(topo["comps"]) <= 4:
+        topo["order"] = "choice"  # every listing order
+    params = {"props": sorted(props or [prop]), "topo": topo}
+    params.update(extra)
+    return dict(
+        name=f"step:{name}", ref="vf.sched:h_step", params=params,
+        bounds=f"topology {name} ({'every listing order' if topo.get('order') == 'choice' else 'listing order as given'}): "
+               f"ONE scheduling step of the real run loop from an arbitrary state: every component time "
+               f"(>= its start), symbolic steps, delays, DelayToPull memories (non-decreasing) are unbounded symbolic "
+               f"values; outputs have published up to their component's time; no bound on how long the run has lasted",
+        must_cover=["outcome:stepped"], max_wall_s=1800)
 
 
 RUN_FUNCTIONS_NOTE = (
